@@ -45,9 +45,9 @@ for id in "$@"; do
   f=${DEMO[$id]%%:*}; d=${DEMO[$id]##*:}
   cd $W; git checkout -q -- .; git clean -fdq
   # without the change: demo passes
-  cp /tmp/seed/$id.out/$f $d/
+  cp ${SEEDDIR:-/tmp/seed}/$id.out/$f $d/
   go test -vet=off -count=1 -run "${RUN[$id]}" ./$d/ > /tmp/confirm_$id.base.log 2>&1; base=$?
-  git apply /tmp/seed/$id.out/patch.diff || { echo "$id: PATCH DOES NOT APPLY"; continue; }
+  git apply ${SEEDDIR:-/tmp/seed}/$id.out/patch.diff || { echo "$id: PATCH DOES NOT APPLY"; continue; }
   go build ./... > /tmp/confirm_$id.build.log 2>&1; build=$?
   go test -vet=off -count=1 -run "${RUN[$id]}" ./$d/ > /tmp/confirm_$id.mut.log 2>&1; mut=$?
   rm $d/$f
